@@ -24,3 +24,10 @@ Theorem C03_solvers_agree_logdet (F : fieldType) n (L1 L2 S : 'M[F]_n) :
   (\prod_(i < n) L1 i i) ^+ 2 = (\prod_(i < n) L2 i i) ^+ 2.
 Proof. by move=> e1 e2 t1 t2; rewrite -(det_factor e1 t1) -(det_factor e2 t2). Qed.
 Print Assumptions C03_solvers_agree_logdet.
+
+(* the lower-triangular factor with positive diagonal is unique: whichever solver computed it, dot_triangular
+   multiplies by the same matrix, so samples for a given key are solver independent *)
+Theorem C03_chol_unique (R : rcfType) n (L1 L2 : 'M[R]_n) :
+  lower_pos L1 -> lower_pos L2 -> L1 *m L1^T = L2 *m L2^T -> L1 = L2.
+Proof. exact: chol_unique. Qed.
+Print Assumptions C03_chol_unique.
